@@ -636,6 +636,12 @@ RUN_OBLIGATION_GROUPS = ('PunyLaws', 'PunyClean')
 RUN_OBLIGATIONS = "%s of the real label decoder over the enumerated ACE label class of harness/punylaws.py" % " + ".join(RUN_OBLIGATION_GROUPS)
 
 
+TRUSTED = list(TRUSTED) + [
+    "the label decoder `puny` = the real decode_punycode_hostname on one label (harness/punylaws.py: decode_label; the per-case tables come from it); "
+    + RUN_OBLIGATIONS + ": hypotheses of the theorems, evaluated on every run (broken obligation `law` when one fails), not proved of CPython's idna codec"
+]
+
+
 def run_obligations(tier):
     import punylaws
 
